@@ -3,13 +3,37 @@
 #include <policy/policy.h>
 #include <script/interpreter.h>
 #include "replay_util.h"
+#include "../witprog_native.h"
 extern "C" { unsigned xc_mandatory(void); unsigned xc_standard(void); unsigned xc_exception(int); int xc_n_exceptions(void); unsigned xc_GetBlockScriptFlags(bool, unsigned, bool, bool, bool, bool); }
 #define BAD(...) do { rv::g_stats.real_violations++; if (rv::g_stats.real_violations <= 8) { std::printf("REAL-VIOLATION " __VA_ARGS__); std::printf("\n"); } } while (0)
 #define DIS(...) do { rv::g_stats.disagreements++; if (rv::g_stats.disagreements <= 8) { std::printf("DISAGREE " __VA_ARGS__); std::printf("\n"); } } while (0)
 static unsigned mask(script_verify_flags f) { unsigned m = 0; for (unsigned b = 0; b < (unsigned)script_verify_flag_name::SCRIPT_VERIFY_END_MARKER; b++) if (f & script_verify_flags{static_cast<script_verify_flag_name>(b)}) m |= 1u << b; return m; }
+// flag monotonicity on the real VerifyScript: witness spends (P2TR script path with leaf versions 0xc0 / 0xc2, P2WSH, unknown witness versions, pay-to-anchor, P2SH-wrapped programs) under pairs small <= big of valid flag sets
+static script_verify_flags from_mask(unsigned m) { script_verify_flags f; for (unsigned b = 0; b < (unsigned)script_verify_flag_name::SCRIPT_VERIFY_END_MARKER; b++) if (m & (1u << b)) f |= script_verify_flags{static_cast<script_verify_flag_name>(b)}; return f; }
+static unsigned make_valid_down(unsigned m, unsigned P2SH, unsigned WIT, unsigned CLEAN) { if ((m & WIT) && !(m & P2SH)) m &= ~WIT; if ((m & CLEAN) && (!(m & P2SH) || !(m & WIT))) m &= ~CLEAN; return m; }
+static void test_flag_pairs(rv::Rng& r)
+{
+    unsigned P2SH = mask(SCRIPT_VERIFY_P2SH), WIT = mask(SCRIPT_VERIFY_WITNESS), CLEAN = mask(SCRIPT_VERIFY_CLEANSTACK), ALL = (1u << (unsigned)script_verify_flag_name::SCRIPT_VERIFY_END_MARKER) - 1;
+    static const std::vector<std::vector<unsigned char>> SCR = {{0x51}, {0x00}, {0x50}, {0x51, 0x51}, {0xb0}, {0x51, 0xb1}, {0x61, 0x51}, {0x51, 0x63, 0x51, 0x68}, {0x02, 0x01, 0x00, 0x63, 0x51, 0x67, 0x51, 0x68}, {0x4c, 0x01, 0x07}, {0x75, 0x51}, {0xba}, {0x51, 0xba}};
+    std::vector<unsigned char> sc = SCR[r.below(SCR.size())]; std::vector<std::vector<unsigned char>> st(r.below(3)); for (auto& e : st) e.assign(r.below(3), (unsigned char)r.below(3));
+    wpn::Spend sp; CScript sig; int kind = (int)r.below(7);
+    if (kind <= 1) { if (!wpn::p2tr_script_path(sc, st, sp, 0xc0)) return; }
+    else if (kind == 2) { if (!wpn::p2tr_script_path(sc, st, sp, 0xc2)) return; }
+    else if (kind == 3) wpn::p2wsh(sc, st, sp);
+    else if (kind == 4) { sp.spk = CScript() << (r.below(2) ? OP_2 : OP_1) << std::vector<unsigned char>(r.below(2) ? 32 : 20, 0x11); sp.wit.stack = st; }
+    else if (kind == 5) { sp.spk = CScript() << OP_1 << std::vector<unsigned char>{0x4e, 0x73}; }
+    else { wpn::Spend in; if (!wpn::p2tr_script_path(sc, st, in, 0xc0)) return; std::vector<unsigned char> redeem(in.spk.begin(), in.spk.end()); sig = CScript() << redeem; sp.spk = CScript() << OP_HASH160 << std::vector<unsigned char>(20, 0) << OP_EQUAL; sp.wit = in.wit; /* P2SH-wrapped v1 program (hash mismatch unless P2SH is off) */ }
+    unsigned big = make_valid_down((unsigned)r.next() & ALL, P2SH, WIT, CLEAN); if (r.below(2)) big = make_valid_down(big | P2SH | WIT, P2SH, WIT, CLEAN); unsigned small = make_valid_down(big & (unsigned)r.next() & (r.below(2) ? (unsigned)r.next() | P2SH | WIT : ~0u), P2SH, WIT, CLEAN);
+    if (r.below(3) == 0) small = make_valid_down(big & ~(1u << r.below((unsigned)script_verify_flag_name::SCRIPT_VERIFY_END_MARKER)), P2SH, WIT, CLEAN);
+    BaseSignatureChecker chk; ScriptError eb = SCRIPT_ERR_UNKNOWN_ERROR, es = SCRIPT_ERR_UNKNOWN_ERROR, es2 = SCRIPT_ERR_UNKNOWN_ERROR;
+    bool rb = VerifyScript(sig, sp.spk, &sp.wit, from_mask(big), chk, &eb), rs = VerifyScript(sig, sp.spk, &sp.wit, from_mask(small), chk, &es), rs2 = VerifyScript(sig, sp.spk, &sp.wit, from_mask(small), chk, &es2); rv::g_stats.inputs++;
+    std::vector<unsigned char> spkb(sp.spk.begin(), sp.spk.end());
+    if (rb && !rs) BAD("scriptPubKey %s, witness of %zu elements (script %s): VerifyScript succeeds under flags %08x but fails (%s) under the subset %08x -- script flags must only ever add restrictions", wpn::hx(spkb).c_str(), sp.wit.stack.size(), wpn::hx(sc).c_str(), big, ScriptErrorString(es).c_str(), small);
+    if (rs != rs2 || es != es2) BAD("VerifyScript is not deterministic on scriptPubKey %s under flags %08x", wpn::hx(spkb).c_str(), small);
+}
 int main(int argc, char** argv)
 {
-    auto a = rv::parse(argc, argv); (void)a; unsigned man = mask(MANDATORY_SCRIPT_VERIFY_FLAGS), stdf = mask(STANDARD_SCRIPT_VERIFY_FLAGS);
+    auto a = rv::parse(argc, argv); unsigned man = mask(MANDATORY_SCRIPT_VERIFY_FLAGS), stdf = mask(STANDARD_SCRIPT_VERIFY_FLAGS);
     rv::g_stats.inputs += 2;
     if (man != xc_mandatory() || stdf != xc_standard()) DIS("flag constants: real mandatory %08x standard %08x, extracted %08x %08x", man, stdf, xc_mandatory(), xc_standard());
     if (man & ~stdf) BAD("a mandatory script flag is not a standard flag (mandatory %08x, standard %08x)", man, stdf);
@@ -20,6 +44,7 @@ int main(int argc, char** argv)
         if (got != want) BAD("GetBlockScriptFlags(exception %d, deployments %x) = %08x, expected %08x", ex, d, got, want);
         if (got & ~stdf) BAD("consensus flags %08x are not a subset of the standard flags %08x", got, stdf);
     }
+    { rv::Rng r(a.seed); uint64_t n = a.diff ? a.n : 20000; for (uint64_t i = 0; i < n; i++) test_flag_pairs(r); }
     rv::report();
     return rv::g_stats.real_violations ? 1 : (rv::g_stats.disagreements ? 3 : 0);
 }
